@@ -12,8 +12,8 @@ BatchVerdict(ev) ==
   ELSE LET bad == {m \in 1..Len(want) : Diff(want[m][2], ev.items[m][2]) # "ok"} IN
        IF bad # {} THEN "batch_item_" \o Diff(want[CHOOSE m \in bad : TRUE][2], ev.items[CHOOSE m \in bad : TRUE][2])
        ELSE "ok"
-Verdict(ev) == IF ev.kind = "quilt" THEN QDiff(QApply(ev.cs), ev.res) ELSE BatchVerdict(ev)
-Expected(ev) == IF ev.kind = "quilt" THEN QApply(ev.cs) ELSE BatchItems(ev.members, ev.ops)
+Verdict(ev) == IF ev.kind = "quilt" THEN QDiff(QApply(ev.cs), ev.res) ELSE IF ev.kind = "batch_map" THEN BatchMapVerdict(ev.direct, ev.via) ELSE BatchVerdict(ev)
+Expected(ev) == IF ev.kind = "quilt" THEN QApply(ev.cs) ELSE IF ev.kind = "batch_map" THEN ev.direct ELSE BatchItems(ev.members, ev.ops)
 Init == l = 1
 Next == /\ l <= Len(Trace)
         /\ l' = l + 1
